@@ -8,24 +8,111 @@
 EXTENDS FlowSem
 
 (***************************************************************************)
+(* Values.  FlowSem abstracts a context to the set of its top-level keys.  *)
+(* Here a value carries in addition the CONTENT of context.variable:       *)
+(*   vc = [name, type ("" = none), compose (list of types, <<>> = absent), *)
+(*         kept (the descriptions stored under a type: {[t, n]})]          *)
+(* so that what a Variable / Compose writes below the top level (and what  *)
+(* a later Variable makes of it) is part of every result.  NoVC: the       *)
+(* context has no key "variable".                                          *)
+(***************************************************************************)
+NoVC == [name |-> "", type |-> "", compose |-> <<>>, kept |-> {}]
+VcOf(v) == IF "vc" \in DOMAIN v THEN v.vc ELSE NoVC
+V4(v) == [d |-> v.d, c |-> v.c, h |-> v.h, vc |-> VcOf(v)]
+V4s(vs) == [j \in 1..Len(vs) |-> V4(vs[j])]
+Val4(d, c, h, vc) == [d |-> d, c |-> c, h |-> h, vc |-> vc]
+SumVal2(tot, c, vc) == Val4(tot, c, c # {}, vc)
+
+(***************************************************************************)
+(* Variables (lena/variables/variable.py).  A variable is [n, ty, g]: its  *)
+(* name, type ("" = none) and getter.  Stage TVar(<<x>>) is Variable(x.n,  *)
+(* getter, type=x.ty); TVar(<<x1, .., xk>>), k >= 2, is Compose(x1, .., xk)*)
+(* Documented meaning: the data is transformed by the getter(s);           *)
+(* context.variable becomes the description of this variable; if the       *)
+(* previous context.variable had a type, the types applied so far are kept *)
+(* in "compose" (application order) and the description stored under each  *)
+(* earlier type is preserved; "composition of variables corresponds to     *)
+(* those variables in a sequence".  Each value gets its OWN copy of the    *)
+(* description: what is done to the context of one value is never seen in  *)
+(* the context of another one, whichever method of the variable (or        *)
+(* adapter around it) the driver uses.                                     *)
+(***************************************************************************)
+VarD(n, ty, g) == [n |-> n, ty |-> ty, g |-> g]
+TVar(vars) == [t |-> "tvar", vars |-> vars]
+GetD(g, d) == CASE g = "dbl" -> 2 * d [] g = "inc" -> d + 1 [] g = "add10" -> d + 10 [] OTHER -> d
+VarVC(x) == [name |-> x.n, type |-> x.ty, compose |-> <<>>,
+             kept |-> IF x.ty = "" THEN {} ELSE {[t |-> x.ty, n |-> x.n]}]
+RangeOf(sq) == {sq[j] : j \in 1..Len(sq)}
+\* context.variable = old is updated with the description new
+UpdateVC(old, new) ==
+  IF old.type = "" THEN new
+  ELSE LET base == IF old.compose # <<>> THEN old.compose ELSE <<old.type>>
+           composed == base \o (IF new.compose # <<>> THEN new.compose
+                                ELSE IF new.type # "" THEN <<new.type>> ELSE <<>>)
+       IN [new EXCEPT !.compose = composed,
+                      !.kept = @ \cup {k \in old.kept : k.t \in RangeOf(composed) /\ \A k2 \in new.kept : k2.t # k.t}]
+RECURSIVE FoldVC(_, _)
+FoldVC(acc, vars) == IF vars = <<>> THEN acc ELSE FoldVC(UpdateVC(acc, VarVC(Head(vars))), Tail(vars))
+StageVC(vars) == FoldVC(VarVC(Head(vars)), Tail(vars))       \* var_context of Variable / Compose
+RECURSIVE GetAll(_, _)
+GetAll(vars, d) == IF vars = <<>> THEN d ELSE GetAll(Tail(vars), GetD(Head(vars).g, d))
+ApplyTVar(vars, v) == Val4(GetAll(vars, v.d), v.c \cup {"variable"}, TRUE, UpdateVC(VcOf(v), StageVC(vars)))
+\* the variables of the FlowSem vocabulary, Variable("x", +10[, <attr>="2023A"]), have no type
+PlainX == <<VarD("x", "", "add10")>>
+
+(***************************************************************************)
+(* Elements with several, conflicting interfaces and explicit adapters.    *)
+(* Amb(f): a user element whose __call__ (or method m) applies f, whose    *)
+(* run yields nothing and whose fill_into fills the value unchanged; used  *)
+(* as a pre / post element through the adapter lena.core.Call:             *)
+(*   WMap(f, "call")   Call(Amb(f))          WMap(f, "m")  Call(Amb(f), call="m")  *)
+(* Documented meaning: the wrapped method, whatever else the element has   *)
+(* ("adapters hide unused methods to prevent ambiguity").  The stage       *)
+(* record also says which interface each driver binds (rb: Sequence -> Run,*)
+(* fb: FillSeq -> FillInto; filled in by FillSeq.tla from AdapterTable).   *)
+(***************************************************************************)
+WMapB(f, w, rb, fb) == [t |-> "wmap", f |-> f, w |-> w, rb |-> rb, fb |-> fb]
+\* what an Amb element does when it is used through the interface named by the binding
+AmbMeaning(st, b, v) == CASE b \in {"call_per_value", "fill_call"} -> <<ApplyMap(st.f, v)>>
+                          [] b = "method:run" -> <<>>
+                          [] b = "method:fill_into" -> <<v>>
+                          [] OTHER -> <<>>
+
+(***************************************************************************)
 (* Accumulators.                                                           *)
 (*   sum     lena.math.Sum     last   user element keeping the last value  *)
 (*   store1  lena.flow.StoreFilled(yield_as_a_group=False)                 *)
 (*   cnt     user element counting its fills                               *)
 (*   sumrun  subclass of Sum with a data attribute named run               *)
+(* accumulators that have other interfaces as well, wrapped into the       *)
+(* adapter lena.core.FillCompute:                                          *)
+(*   fc_sum    FillCompute(Sum())                                          *)
+(*   fc_count  FillCompute(lena.flow.Count()): Count has run (passes the   *)
+(*             values on), fill_into, fill and compute (yields the count   *)
+(*             with the context of the last value and the key "count")     *)
+(*   fc_amb    FillCompute(A): A counts its fills; its run passes the      *)
+(*             values on, it is callable and has fill_into and request     *)
+(*   fc_named  FillCompute(A', fill="put", compute="take"): A' counts in   *)
+(*             put / take; its fill, compute, run mean something else      *)
 (***************************************************************************)
-AccInit(a) == CASE a \in {"sum", "sumrun"} -> [tot |-> 0, c |-> {}]
-                [] a = "last" -> [has |-> FALSE, prev |-> Val(0, {}, FALSE)]
+Wrapped == {"fc_sum", "fc_count", "fc_amb", "fc_named"}
+AccInit(a) == CASE a \in {"sum", "sumrun", "fc_sum"} -> [tot |-> 0, c |-> {}, vc |-> NoVC]
+                [] a = "last" -> [has |-> FALSE, prev |-> Val4(0, {}, FALSE, NoVC)]
                 [] a = "store1" -> [vs |-> <<>>]
-                [] a = "cnt" -> [n |-> 0]
-AccFill(a, loc, v) == CASE a \in {"sum", "sumrun"} -> [tot |-> loc.tot + v.d, c |-> v.c]
+                [] a \in {"cnt", "fc_amb", "fc_named"} -> [n |-> 0]
+                [] a = "fc_count" -> [n |-> 0, c |-> {}, vc |-> NoVC]
+AccFill(a, loc, v) == CASE a \in {"sum", "sumrun", "fc_sum"} -> [tot |-> loc.tot + v.d, c |-> v.c, vc |-> VcOf(v)]
                         [] a = "last" -> [has |-> TRUE, prev |-> v]
                         [] a = "store1" -> [vs |-> Append(loc.vs, v)]
-                        [] a = "cnt" -> [n |-> loc.n + 1]
-AccCompute(a, loc) == CASE a \in {"sum", "sumrun"} -> <<SumVal(loc.tot, loc.c)>>
+                        [] a \in {"cnt", "fc_amb", "fc_named"} -> [n |-> loc.n + 1]
+                        [] a = "fc_count" -> [n |-> loc.n + 1, c |-> v.c, vc |-> VcOf(v)]
+AccCompute(a, loc) == CASE a \in {"sum", "sumrun", "fc_sum"} -> <<SumVal2(loc.tot, loc.c, loc.vc)>>
                         [] a = "last" -> IF loc.has THEN <<loc.prev>> ELSE <<>>
                         [] a = "store1" -> loc.vs
-                        [] a = "cnt" -> <<Val(loc.n, {}, FALSE)>>
+                        [] a \in {"cnt", "fc_amb", "fc_named"} -> <<Val4(loc.n, {}, FALSE, NoVC)>>
+                        [] a = "fc_count" -> <<Val4(loc.n, (loc.c \ CountMarks) \cup {CountMark(loc.n)}, TRUE, loc.vc)>>
+\* the run method of the element inside the adapter (NOT what the adapter stands for): Count.run, A.run
+AccOwnRun(a, vs) == IF a = "fc_count" THEN V4s(Sem(<<Count>>, vs)) ELSE vs
 RECURSIVE AccFillAll(_, _, _)
 AccFillAll(a, loc, vs) == IF vs = <<>> THEN loc ELSE AccFillAll(a, AccFill(a, loc, Head(vs)), Tail(vs))
 
@@ -64,11 +151,11 @@ SelSem(s, v) ==
     [] s = "not_roe" -> ~(~Raises(v) /\ v.d = 1)                   \* Not(.., raise_on_error=False): full negation
 \* a callable that returns None (or a bare 0) for some values: a callable is not a filter, whatever it returns is
 \* passed on / filled.  None is the value NoneVal.
-NoneVal == Val(-7, {}, FALSE)
+NoneVal == Val4(-7, {}, FALSE, NoVC)
 NMap(f) == [t |-> "nmap", f |-> f]
 ApplyN(f, v) == CASE f = "none_odd" -> IF v.d % 2 = 1 THEN NoneVal ELSE v
                   [] f = "none_all" -> NoneVal
-                  [] f = "zero_odd" -> IF v.d % 2 = 1 THEN Val(0, {}, FALSE) ELSE v
+                  [] f = "zero_odd" -> IF v.d % 2 = 1 THEN Val4(0, {}, FALSE, NoVC) ELSE v
 \* chains in which None only meets elements that take any value
 Tolerant(st) == st.t \in {"slice", "cfilter"}
 MakesNone(st) == st.t = "nmap" /\ st.f \in {"none_odd", "none_all"}
@@ -78,7 +165,12 @@ WellTyped(ch) ==
      /\ ch.acc \in {"store1", "last", "cnt"}
      /\ \A j \in 1..Len(ch.post) : Tolerant(ch.post[j])
 \* post elements that keep nothing between two runs (compute() may then be called again)
-Stateless(post) == \A i \in 1..Len(post) : post[i].t \in {"map", "filter", "slice", "runif", "cfilter", "crunif", "runifdup", "runifseq", "sfilter", "nmap"}
+Stateless(post) == \A i \in 1..Len(post) : post[i].t \in {"map", "filter", "slice", "runif", "cfilter", "crunif", "runifdup", "runifseq", "sfilter", "nmap", "wmap"}
+\* a Variable changes the context of the value it is given in place, and a store yields the very values it holds:
+\* a second compute() would hand the variables after the accumulator what they have already changed.  Chains with
+\* typed variables are computed once.
+HasTVar(sq) == \E i \in 1..Len(sq) : sq[i].t = "tvar"
+Recomputable(ch) == Stateless(ch.post) /\ ~HasTVar(ch.pre) /\ ~HasTVar(ch.post)
 OnHave2(st, loc, v) ==
   CASE st.t = "cfilter" -> [loc |-> loc, em |-> IF HasKey(st.k, v) THEN <<v>> ELSE <<>>]
     [] st.t = "crunif" -> [loc |-> loc, em |-> IF HasKey(st.k, v)
@@ -88,27 +180,36 @@ OnHave2(st, loc, v) ==
     [] st.t = "runifseq" -> [loc |-> loc, em |-> InnerRun(st, v)]
     [] st.t = "sfilter" -> [loc |-> loc, em |-> IF SelSem(st.s, v) THEN <<v>> ELSE <<>>]
     [] st.t = "nmap" -> [loc |-> loc, em |-> <<ApplyN(st.f, v)>>]
-    [] OTHER -> OnHave(st, loc, v)
-\* FlowSem.Sem over the extended vocabulary
-RECURSIVE StageRun2(_, _, _, _)
-StageRun2(st, loc, xs, eof) ==
+    [] st.t = "tvar" -> [loc |-> loc, em |-> <<ApplyTVar(st.vars, v)>>]
+    [] st.t = "wmap" -> [loc |-> loc, em |-> <<ApplyMap(st.f, v)>>]          \* the wrapped method
+    [] st.t = "map" /\ st.f \in {"var", "varattr"} -> [loc |-> loc, em |-> <<ApplyTVar(PlainX, v)>>]
+    [] st.t = "sum" -> [loc |-> [tot |-> loc.tot + v.d, c |-> v.c, vc |-> VcOf(v)], em |-> <<>>]
+    [] OTHER -> LET r == OnHave(st, loc, v) IN [loc |-> r.loc, em |-> V4s(r.em)]
+InitLoc2(st) == IF st.t = "sum" THEN [tot |-> 0, c |-> {}, vc |-> NoVC] ELSE InitLoc(st)
+OnEof2(st, loc) == IF st.t = "sum" THEN <<SumVal2(loc.tot, loc.c, loc.vc)>> ELSE V4s(OnEof(st, loc))
+\* operational run side: an Amb element does what the interface bound by Sequence (-> Run) means
+OnHaveRun(st, loc, v) == IF st.t = "wmap" THEN [loc |-> loc, em |-> AmbMeaning(st, st.rb, v)] ELSE OnHave2(st, loc, v)
+\* FlowSem.Sem over the extended vocabulary; op = TRUE: as bound by Sequence (OnHaveRun), FALSE: as documented
+RECURSIVE StageRun2(_, _, _, _, _)
+StageRun2(st, loc, xs, eof, op) ==
   IF EarlyDone(st, loc) THEN [out |-> <<>>, fin |-> TRUE]
-  ELSE IF xs = <<>> THEN (IF eof THEN [out |-> OnEof(st, loc), fin |-> TRUE] ELSE [out |-> <<>>, fin |-> FALSE])
-  ELSE LET r == OnHave2(st, loc, Head(xs))
-           rest == StageRun2(st, r.loc, Tail(xs), eof)
+  ELSE IF xs = <<>> THEN (IF eof THEN [out |-> OnEof2(st, loc), fin |-> TRUE] ELSE [out |-> <<>>, fin |-> FALSE])
+  ELSE LET r == IF op THEN OnHaveRun(st, loc, Head(xs)) ELSE OnHave2(st, loc, Head(xs))
+           rest == StageRun2(st, r.loc, Tail(xs), eof, op)
        IN [out |-> r.em \o rest.out, fin |-> rest.fin]
-RECURSIVE PipeRun2(_, _, _)
-PipeRun2(prog, xs, eof) ==
+RECURSIVE PipeRun2(_, _, _, _)
+PipeRun2(prog, xs, eof, op) ==
   IF prog = <<>> THEN [out |-> xs, fin |-> eof]
-  ELSE LET r == StageRun2(Head(prog), InitLoc(Head(prog)), xs, eof) IN PipeRun2(Tail(prog), r.out, r.fin)
-Sem2(prog, xs) == PipeRun2(prog, xs, TRUE).out
+  ELSE LET r == StageRun2(Head(prog), InitLoc2(Head(prog)), xs, eof, op) IN PipeRun2(Tail(prog), r.out, r.fin, op)
+Sem2(prog, xs) == PipeRun2(prog, xs, TRUE, FALSE).out
+SemOp(prog, xs) == PipeRun2(prog, xs, TRUE, TRUE).out      \* a Sequence of the real elements run on xs
 
 Reach(ch, xs) == Sem2(ch.pre, xs)
 ChainSem(ch, xs) == Sem2(ch.post, AccCompute(ch.acc, AccFillAll(ch.acc, AccInit(ch.acc), Reach(ch, xs))))
 \* flows: "bare" data, "pairs" (data, {}) and "ctx": pairs whose contexts differ (odd values carry the key "odd")
-FlowOf(n, fk) == [j \in 1..n |-> CASE fk = "bare" -> Val(j - 1, {}, FALSE)
-                                    [] fk = "pairs" -> Val(j - 1, {}, TRUE)
-                                    [] fk = "ctx" -> Val(j - 1, IF (j - 1) % 2 = 1 THEN {"odd"} ELSE {}, TRUE)]
+FlowOf(n, fk) == [j \in 1..n |-> CASE fk = "bare" -> Val4(j - 1, {}, FALSE, NoVC)
+                                    [] fk = "pairs" -> Val4(j - 1, {}, TRUE, NoVC)
+                                    [] fk = "ctx" -> Val4(j - 1, IF (j - 1) % 2 = 1 THEN {"odd"} ELSE {}, TRUE, NoVC)]
 
 (***************************************************************************)
 (* Fill side of one pre element: [loc, em, stop].                          *)
@@ -119,7 +220,9 @@ NextIdx(st, j) ==
   LET cand == IF j < st.a THEN st.a ELSE j + st.s - ((j - st.a) % st.s)
   IN IF st.b # None /\ cand >= st.b THEN None ELSE cand
 FillIntoStep(st, loc, v) ==
-  CASE st.t = "map" -> [loc |-> loc, em |-> <<ApplyMap(st.f, v)>>, stop |-> FALSE]
+  CASE st.t = "map" -> [loc |-> loc, em |-> OnHave2(st, loc, v).em, stop |-> FALSE]
+    [] st.t = "tvar" -> [loc |-> loc, em |-> <<ApplyTVar(st.vars, v)>>, stop |-> FALSE]       \* FillInto(variable): fill(variable(v))
+    [] st.t = "wmap" -> [loc |-> loc, em |-> AmbMeaning(st, st.fb, v), stop |-> FALSE]       \* as bound by FillInto
     [] st.t = "filter" -> [loc |-> loc, em |-> IF Pred(st.p, v) THEN <<v>> ELSE <<>>, stop |-> FALSE]
     [] st.t = "runif" -> [loc |-> loc, stop |-> FALSE,
                           em |-> IF Pred(st.p, v) THEN (IF st.f = "drop" THEN <<>> ELSE <<ApplyMap(st.f, v)>>) ELSE <<v>>]
@@ -153,7 +256,7 @@ FeedVals(pre, locs, i, vs) ==
   IF vs = <<>> THEN [locs |-> locs, reach |-> <<>>]
   ELSE IF i > Len(pre) THEN [locs |-> locs, reach |-> vs]
   ELSE IF EarlyDone(pre[i], locs[i]) THEN [locs |-> locs, reach |-> <<>>]
-  ELSE LET r == OnHave2(pre[i], locs[i], Head(vs))
+  ELSE LET r == OnHaveRun(pre[i], locs[i], Head(vs))
            down == FeedVals(pre, [locs EXCEPT ![i] = r.loc], i + 1, r.em)
            rest == FeedVals(pre, down.locs, i, Tail(vs))
        IN [locs |-> rest.locs, reach |-> down.reach \o rest.reach]
